@@ -7,7 +7,7 @@ self-contained and can be replayed or shrunk alone.
 
 usage: gencases.py --streams url,set,... --n <cases per stream> --seed N > ops.txt
 """
-import argparse, random, sys, itertools
+import argparse, random, re, sys, itertools
 
 # ----------------------------------------------------------------------------- vocabularies
 SCHEMES = ['http','https','ws','wss','ftp','file','non-spec','x','a+b-c.d','HTTP','hTtPs','FILE','htt','httpss','fil','blob','mailto','','1ab','h ttp','wS','FtP']
@@ -70,10 +70,16 @@ class Gen:
         self.r = random.Random(seed)
         self.lines = []
         self.stats = {}
+        self.slotnames = {}   # generator-side guess of the param names currently in each slot's query (hit rate of name-based ops)
     def stat(self, k):
         self.stats[k] = self.stats.get(k, 0) + 1
     def emit(self, s):
         self.lines.append(s)
+        t = s.split(' ')
+        if t[0] == 'case': self.slotnames = {}
+    def note_query(self, slot, text):
+        m = re.search(r'\?([^#]*)', text)
+        self.slotnames[slot] = [p.split('=')[0] for p in m.group(1).split('&') if p and '%' not in p.split('=')[0] and '+' not in p.split('=')[0]] if m else []
     def enc(self, w8=70):
         x = self.r.randrange(100)
         return 8 if x < w8 else (16 if x < w8 + (100 - w8) // 2 else 32)
@@ -197,7 +203,12 @@ class Gen:
         # char-typed ill-formed names are finding F3: names/values here are well-formed text
         # names that really occur in the lists (the queries of STARTS, earlier appends) most of the time, so that
         # set / del / remove / has / get hit existing pairs
-        n = self.pick(['a', 'b', 'q', 'x', 'y', 'k', 'z', 'c']) if self.r.randrange(10) < 6 else self.pick(NAMES)
+        known = self.slotnames.get((kind, slot), []) if kind == 'psp' else self.slotnames.get(slot, [])
+        if known and self.r.randrange(10) < 6: n = self.pick(known)
+        else: n = self.pick(['a', 'b', 'q', 'x', 'y', 'k', 'z', 'c']) if self.r.randrange(10) < 5 else self.pick(NAMES)
+        if o in ('append', 'set'):
+            key = (kind, slot) if kind == 'psp' else slot
+            self.slotnames.setdefault(key, []).append(n)
         v = self.pick(['1', '2', '3', 'v', '']) if self.r.randrange(10) < 5 else self.pick(VALUES)
         if o in ('append', 'set', 'del2', 'remove2', 'has2'):
             return '%s %d %s %s %s' % (kind, slot, o, self.arg(n), self.arg(v))
@@ -229,8 +240,11 @@ class Gen:
                 self.emit('dump 1'); self.emit('sp 1 append %s %s' % (self.arg('z'), self.arg('3')))
             self.emit('dump 0'); self.emit('sp 0 %s' % self.pick(['sort', 'append %s %s' % (self.arg('c'), self.arg('d'))])); self.emit('dump 0'); self.emit('dump 1')
             return
-        self.emit('parse 0 %s -' % self.arg(self.pick(STARTS)))
-        if self.r.randrange(2): self.emit('parse 1 %s -' % self.arg(self.pick(STARTS) if self.r.randrange(4) else self.url_text()))
+        t0 = self.pick(STARTS + ['http://h/?a=1&b=2&a=3#f', 'https://h/p?q=1&x=2&y=3', 'non-spec:/p?k=v&k=w'])
+        self.emit('parse 0 %s -' % self.arg(t0)); self.note_query(0, t0)
+        if self.r.randrange(2):
+            t1 = self.pick(STARTS + ['http://h/?a=1&b=2&a=3#f', 'ws://h/?x=1&x=2']) if self.r.randrange(4) else self.url_text()
+            self.emit('parse 1 %s -' % self.arg(t1)); self.note_query(1, t1)
         if self.r.randrange(2): self.emit('sp %d get' % self.r.randrange(2))
         for _ in range(self.r.randrange(2, 9)):
             x = self.r.randrange(100)
@@ -269,7 +283,9 @@ class Gen:
         self.emit('case')
         self.stat('case:psp')
         q = self.pick(QUERIES + ['a=1&b=2&a=3', 'z=1&\U00010000=2&\uffff=3&\ue000=4&a=5', 'b=&a=&c=&a=2', '%', '%4', 'x=%41', '&&a', '=', '+=+', 'ab=1&abc=2&abd=3&a=4', '\U0001f600=1&\U0001f601=2&\U0001f3ff=3&\U0001f400=4'])
-        if self.r.randrange(4): self.emit('psp 0 ctor %s' % self.arg(q))
+        if self.r.randrange(4):
+            self.emit('psp 0 ctor %s' % self.arg(q))
+            self.slotnames[('psp', 0)] = [p.split('=')[0] for p in q.lstrip('?').split('&') if p and '%' not in p.split('=')[0] and '+' not in p.split('=')[0]]
         for _ in range(self.r.randrange(1, 10)):
             self.emit(self.sp_op(0, 'psp'))
         self.emit('psp 0 sort')
